@@ -532,6 +532,23 @@ class Interp:
     def call(self, ctx, f, args, kwargs=None):
         return f.py_call(self, ctx, list(args), dict(kwargs or {}))
 
+    def eval_default(self, ctx, fi, pname, node):
+        """Python evaluates a default-argument expression ONCE, when the `def` statement runs: a default that calls something or
+        builds a mutable object is evaluated here without the contract's hooks (the state at import time, not the symbolic state
+        of the call under analysis) and the one resulting object is shared by all calls."""
+        if not any(isinstance(x, (ast.Call, ast.List, ast.Dict, ast.Set, ast.ListComp, ast.DictComp, ast.SetComp)) for x in ast.walk(node)):
+            return self.eval(ctx, node, Env(module=fi.module, defcls=fi.cls))
+        key = (fi.qualname, pname)
+        cache = self.__dict__.setdefault("_default_cache", {})
+        if key not in cache:
+            saved = (self.call_hooks, self.attr_hooks, ctx.classattrs)
+            self.call_hooks, self.attr_hooks, ctx.classattrs = [], [], {}  # class-body initial state of every class
+            try:
+                cache[key] = self.eval(ctx, node, Env(module=fi.module, defcls=fi.cls))
+            finally:
+                self.call_hooks, self.attr_hooks, ctx.classattrs = saved
+        return cache[key]
+
     def bind_args(self, ctx, fi: FuncInfo, args, kwargs, env):
         a = fi.node.args
         params = [p.arg for p in a.posonlyargs] + [p.arg for p in a.args]
@@ -549,7 +566,7 @@ class Interp:
             else:
                 di = i - (len(params) - nd)
                 if di >= 0:
-                    env.set(p, self.eval(ctx, defaults[di], Env(module=fi.module, defcls=fi.cls)))
+                    env.set(p, self.eval_default(ctx, fi, p, defaults[di]))
                 else:
                     raise PyRaise(VExc("TypeError", f"{fi.name}() missing required argument {p}"))
         extra = args[len(params):]
@@ -561,7 +578,7 @@ class Interp:
             if p.arg in kwargs:
                 env.set(p.arg, kwargs.pop(p.arg))
             elif d is not None:
-                env.set(p.arg, self.eval(ctx, d, Env(module=fi.module, defcls=fi.cls)))
+                env.set(p.arg, self.eval_default(ctx, fi, p.arg, d))
             else:
                 raise PyRaise(VExc("TypeError", f"{fi.name}() missing keyword-only argument {p.arg}"))
         if a.kwarg is not None:
